@@ -158,6 +158,9 @@ func c15ReadsBetweenWrites(c *fw.Ctx, id string) {
 			c.Eval(1)
 			var err error
 			w, err = openWorld("")
+			if w != nil {
+				w.solo = true
+			}
 			if err != nil {
 				c.Inconclusive("open engine: " + err.Error())
 				return
@@ -322,6 +325,9 @@ func runIndexHistories(c *fw.Ctx, id string) {
 			}
 			var err error
 			w, err = openWorld(file)
+			if w != nil {
+				w.solo = true
+			}
 			if err != nil {
 				c.Inconclusive("open engine: " + err.Error())
 				return
